@@ -1,5 +1,7 @@
 package bebop
 
+import "strings"
+
 func simpleGoString(simple string, settings GenerateSettings) string {
 	if simple == typeGUID {
 		return "[16]byte"
@@ -23,7 +25,12 @@ func (ft FieldType) goString(settings GenerateSettings) string {
 	if settings.PrivateDefinitions {
 		return unexposeName(simpleGoString(ft.Simple, settings))
 	}
-	return simpleGoString(ft.Simple, settings)
+	name := simpleGoString(ft.Simple, settings)
+	if _, ok := primitiveTypes[ft.Simple]; !ok && !strings.Contains(name, ".") {
+		// a record or enum of this file: refer to it by the name it is declared with
+		return exposeName(name, settings)
+	}
+	return name
 }
 
 func (mt MapType) goString(settings GenerateSettings) string {
